@@ -88,6 +88,9 @@ Scribbled(r) == IF r = <<>> THEN <<>> ELSE <<90, RunTotal(r, 1)>>   \* every byt
 (*      "i" "y" "u" "n" "b" "q" "f" "d"  typed value of that type id       *)
 (*      "col"  typed colour c = <<a,r,g,b>>;  "fpt" typed point n = a \o b  *)
 (*      "s"    typed character pointer to text c                           *)
+(*      "vec"  source answering the character-vector type with exactly the  *)
+(*             bytes c (run-length list) out of a longer buffer, n = <<bytes *)
+(*             before, bytes after up to the terminator>>                   *)
 V(f, n, c, sty) == [f |-> f, n |-> n, c |-> c, sty |-> sty]
 Num(v2, sty) == V("num", D(v2), <<>>, sty)
 NumN(n)      == V("num", n, <<>>, "dec")
@@ -98,6 +101,9 @@ Txt(c)       == V("txt", <<>>, c, "")
 Rle(c)       == V("rle", <<>>, c, "")
 Col(c)       == V("col", <<>>, c, "")
 Pt(a2, b2)   == V("fpt", D(a2) \o D(b2), <<>>, "")
+\* character vector (base + length) with the bytes c, lying inside a longer NUL-terminated buffer:
+\* pre bytes before it, post bytes between its end and the terminator
+Vec(c, pre, post) == V("vec", <<pre, post>>, c, "")
 IntTyped(f)  == f \in {"i", "y", "u", "n", "b", "q"}
 
 (* result of interpreting a value for a property:                          *)
@@ -306,7 +312,7 @@ DenChr(pt, v) ==
   ELSE IF v.f \in {"col", "fpt"} THEN Refused
   ELSE Silent
 DenStr(pt, v) ==
-  IF v.f = "rle" THEN Ok(v.c)
+  IF v.f \in {"rle", "vec"} THEN Ok(v.c)     \* a vector means its own bytes, whatever follows in the buffer
   ELSE IF v.f = "txt" THEN Ok(RLE(v.c))
   ELSE IF v.f \in {"col", "fpt"} THEN Refused
   ELSE Silent
@@ -612,7 +618,9 @@ RealVals(pt) ==
 ChrVals == {Txt(W_A), Txt(W_r), Txt(W_sp_r), Txt(W_tilde), Txt(W_five), Rle(<<97, 3>>), Col(<<255, 1, 2, 3>>), Pt(1, 1),
             Typ("i", 2000), Typ("i", -2), TypN("i", <<65535, 65534>>), Typ("n", 600)}   \* beyond a character's range
 StrVals == {Rle(<<>>), Rle(<<97, 1>>), Rle(<<104, 1, 105, 1, 32, 1, 116, 1, 104, 1, 101, 1, 114, 1, 101, 1>>),
-            Rle(<<120, 300>>), Rle(<<97, 5000, 98, 1, 32, 2, 99, 70>>), Txt(W_abc), Txt(W_h_red), Col(<<255, 1, 2, 3>>)}
+            Rle(<<120, 300>>), Rle(<<97, 5000, 98, 1, 32, 2, 99, 70>>), Txt(W_abc), Txt(W_h_red), Col(<<255, 1, 2, 3>>),
+            Vec(<<104, 1, 105, 1>>, 0, 0), Vec(<<104, 1, 105, 1>>, 0, 3), Vec(<<116, 1, 111, 1, 107, 1>>, 2, 2),
+            Vec(<<>>, 0, 4), Vec(<<120, 300>>, 1, 1)}
 ColVals == {Txt(W_red), Txt(W_RED), Txt(W_Red), Txt(W_green), Txt(W_blue), Txt(W_cyan), Txt(W_magenta), Txt(W_yellow),
             Txt(W_white), Txt(W_black), Txt(W_h_red), Txt(W_h_reda), Txt(W_h_), Txt(W_h_80), Txt(W_h_8040),
             Txt(W_h_mix), Txt(W_h_full), Txt(W_h_8), Txt(W_h_804), Txt(W_h_gg), Txt(W_reddish), Txt(W_abc),
@@ -639,7 +647,7 @@ FewVals(pt) ==
   CASE pt.t = "int"   -> {NumN(pt.hi), TypN("i", pt.lo), Txt(W_abc)}
     [] pt.t = "real"  -> {Num(3, "dec"), Typ("i", -6), Txt(W_abc)}
     [] pt.t = "chr"   -> {Txt(W_A), Txt(W_r), Col(<<255, 1, 2, 3>>)}
-    [] pt.t = "str"   -> {Rle(<<104, 1, 105, 1>>), Rle(<<121, 40>>), Col(<<255, 1, 2, 3>>)}
+    [] pt.t = "str"   -> {Rle(<<104, 1, 105, 1>>), Rle(<<121, 40>>), Vec(<<118, 2>>, 1, 2), Col(<<255, 1, 2, 3>>)}
     [] pt.t = "col"   -> {Txt(W_blue), Col(<<128, 1, 2, 3>>), Txt(W_abc)}
     [] pt.t = "pt"    -> {Num(1, "dec"), Num2(2, 1), Num(-1, "dec")}
     [] pt.t = "intv"  -> {Num(14, "dec"), Txt(W_log), Txt(W_lag)}
